@@ -68,4 +68,18 @@ build ./cmd/vcheck "$BIN/vcheck"
 if [ "$mode" = "--replay" ]; then
   exec "$BIN/vcheck" -prop "$prop" -replay "$1"
 fi
+if [ "$prop" = C02 ] && [ $# -eq 0 ]; then
+  "$BIN/vcheck" -prop "$prop" -tier "$mode" -root "$OUT"; rc=$?
+  # supplementary (not the deciding step): the decode / print / measure / copy / pack / name functions run from
+  # several goroutines on their own values under the race detector (harness/racepass). A single-threaded
+  # enumeration cannot see package-level state such a function starts to share; only a race report counts.
+  log="$OUT/evidence/C02.race.log"
+  (cd "$ROOT/harness" && go test ${VERIF_OVERLAY:+-overlay=$VERIF_OVERLAY} -race -vet=off -count=1 ./racepass >"$log" 2>&1)
+  if grep -q "WARNING: DATA RACE" "$log"; then
+    echo "VIOLATION property=C02 replay=$log"; echo "  key=race-detector/pure-functions (see the log)"; [ $rc -eq 0 ] && rc=1
+  else
+    echo "supplementary -race pass over the pure decode/print/pack functions: no race reported"
+  fi
+  exit $rc
+fi
 exec "$BIN/vcheck" -prop "$prop" -tier "$mode" -root "$OUT" "$@"
